@@ -8,7 +8,6 @@ import (
 	"net/netip"
 	"os"
 	"strings"
-	"testing"
 	"testing/synctest"
 	"time"
 
@@ -652,18 +651,7 @@ func runC07(c *wk.Ctx) {
 		}
 		r := c.Rand("c07", i)
 		c.Begin(idx, "send-api-batch", nil)
-		func() {
-			defer func() {
-				if rec := recover(); rec != nil {
-					pi := wk.Capture(rec)
-					if strings.Contains(pi.Value, "HARNESS BUG") {
-						panic(rec)
-					}
-					c.ViolP("C09", "bubble:"+strings.SplitN(pi.Value, ":", 2)[0], pi.Value, map[string]any{"index": idx})
-				}
-			}()
-			synctest.Test(theT, func(t *testing.T) { c07Batch(c, idx, r, int(i%4), scratch) })
-		}()
+		runBubble(c, idx, func() { c07Batch(c, idx, r, int(i%4), scratch) })
 	}
 	// purge probes (ARP / NS / echo) along host-tracking histories, with the universal rules applied to every frame
 	runHostsTx(c)
